@@ -1012,6 +1012,9 @@ def twin_check(scenario, prop, sim, out):
     import copy
     if scenario.get("fees", {}).get("fixed"):
         return      # a rounding-level dust trade made by only one of the two accounts would cost a whole fixed fee
+    if any(op.get("fractional") is False for op in scenario["script"]):
+        return      # whole lots: a position of 120.00000000000001 vs 120 lots truncates to 119 vs 120 - a legitimate one-lot
+                    # difference between the two accounts that a model-free comparison cannot tell from a defect
     i = scenario["twin"]
     sc2 = copy.deepcopy(scenario)
     spec = sc2["contracts"][i]
